@@ -11,6 +11,7 @@ import (
 	"strings"
 	"testing"
 
+	"github.com/cloudflare/pat-go/tokens/type3"
 	"pgregory.net/rapid"
 
 	"verifharness/internal/gen"
@@ -220,4 +221,27 @@ func TestReplayInflight(t *testing.T) {
 		t.Fatal(err)
 	}
 	fmt.Println("in-flight case survived")
+}
+
+// TestResignHealth: the harness-side re-signing used by the "+signed" targets produces signatures the code accepts
+// (otherwise those targets would silently test nothing beyond the plain ones).
+func TestResignHealth(t *testing.T) {
+	x := theWorld()
+	for i, req := range append([][]byte{x.req3}, x.req3Variants[:5]...) {
+		if _, _, err := x.iss3.Evaluate(resign(req, x.blindedSigner, false)); err != nil {
+			t.Fatalf("harness health: issuer refuses honest request %d re-signed with the client's blinded key: %v", i, err)
+		}
+	}
+	r := new(type3.RateLimitedTokenRequest)
+	if !r.Unmarshal(resign(x.req3, x.blindedSigner, false)) {
+		t.Fatal("harness health: re-signed request does not decode")
+	}
+	att := type3.NewRateLimitedAttester(&memCache{m: map[string]*type3.ClientState{}})
+	if err := att.VerifyRequest(*r, x.blind3, x.client3, x.anon); err != nil {
+		t.Fatalf("harness health: attester refuses the re-signed honest request: %v", err)
+	}
+	// with the key replaced by the harness key the signature must still pass: the failure has to come from decryption
+	if _, _, err := x.iss3.Evaluate(resign(x.req3, x.ownKey, true)); err == nil || strings.Contains(err.Error(), "signature") {
+		t.Fatalf("harness health: request re-signed under the harness key: got %v, expected a decryption failure", err)
+	}
 }
